@@ -179,6 +179,10 @@ def run(module, cfg_text=None, cfg_path=None, workers=None, dump=False, coverage
             pass
         if m:
             res.generated, res.distinct = int(m.group(1)), int(m.group(2))
+        if simulate:
+            ms = re.search(r"The number of states generated: (\d+)", out)
+            if ms:
+                res.generated = res.distinct = int(ms.group(1))
         m = _RE_DEPTH.search(out)
         if m:
             res.depth = int(m.group(1))
